@@ -264,7 +264,18 @@ pub fn val_strategy(max_len: u32) -> impl Strategy<Value = Val> {
         .prop_map(move |(class, len, seed)| Val { class, len: len.min(max_len), seed })
 }
 
-pub fn entry_strategy(max_val: u32) -> impl Strategy<Value = EntrySpec> {
+pub fn entry_strategy(max_val: u32) -> BoxedStrategy<EntrySpec> {
+    let normal = entry_strategy_normal(max_val);
+    if max_val < 60_000 {
+        return normal.boxed();
+    }
+    // An entry whose key and value are each legal strings but which can never fit a datagram
+    // (key + value above 65,521 bytes): it must block the member's later versions, not be skipped.
+    let oversize = (0u16..400, 900u16..3000, 63_000u32..=65_000, any::<u16>(), 1u8..3).prop_map(|(key_idx, key_pad, len, seed, gap)| EntrySpec { key_idx, key_pad, val: Val { class: 4, len, seed }, status: 0, gap });
+    prop_oneof![40 => normal, 1 => oversize].boxed()
+}
+
+fn entry_strategy_normal(max_val: u32) -> impl Strategy<Value = EntrySpec> {
     (
         prop_oneof![30 => 0u16..400, 1 => Just(0xFFFFu16)],
         prop_oneof![12 => Just(0u16), 3 => 1u16..200, 1 => 200u16..3000],
@@ -305,6 +316,13 @@ pub fn state_strategy() -> impl Strategy<Value = StateSpec> {
         any::<bool>(),
         proptest::collection::vec(member_strategy(8, 40_000), 0..5),
     );
-    (prop_oneof![3 => small, 2 => wide, 4 => heavy], prop_oneof![5 => Just(0u8), 1 => 1u8..4])
+    // `bulky`: hundreds of large, highly compressible values: a reply of a few KB whose op stream
+    // is several megabytes.
+    let bulky = (
+        proptest::collection::vec((0u16..400, 20_000u32..60_000, any::<u16>()).prop_map(|(key_idx, len, seed)| EntrySpec { key_idx, key_pad: 0, val: Val { class: 1, len, seed }, status: 0, gap: 1 }), 100..350),
+        Just(false),
+        Just(Vec::<MemberSpec>::new()),
+    );
+    (prop_oneof![30 => small, 20 => wide, 40 => heavy, 1 => bulky], prop_oneof![5 => Just(0u8), 1 => 1u8..4])
         .prop_map(|((own, own_gc, members), aged)| StateSpec { own, own_gc, members, aged })
 }
